@@ -512,16 +512,44 @@ fn content_spec(input: &str) -> IResult<&str, model::DeclarationContent<'_>> {
 ///
 /// [\[47\] children](https://www.w3.org/TR/2008/REC-xml-20081126/#NT-children)
 fn children(input: &str) -> IResult<&str, model::DeclarationContentItem<'_>> {
-    alt((
-        map(
-            tuple((seq, opt(alt((tag("?"), tag("*"), tag("+")))))),
-            |(v, q)| model::DeclarationContentItem::Seq(v, q),
+    map(
+        tuple((seq_or_choice, opt(alt((tag("?"), tag("*"), tag("+")))))),
+        |((v, choice), q)| {
+            if choice {
+                model::DeclarationContentItem::Choice(v, q)
+            } else {
+                model::DeclarationContentItem::Seq(v, q)
+            }
+        },
+    )(input)
+}
+
+/// seq | choice, parsed in one pass: trying `seq` and then `choice` on the same input parses
+/// every nested group twice per level, which is exponential in the nesting depth.
+fn seq_or_choice(input: &str) -> IResult<&str, (Vec<model::DeclarationContentItem<'_>>, bool)> {
+    map(
+        delimited(
+            tuple((tag("("), multispace0)),
+            tuple((
+                cp,
+                alt((
+                    map(
+                        many1(preceded(tuple((multispace0, tag("|"), multispace0)), cp)),
+                        |r| (r, true),
+                    ),
+                    map(
+                        many0(preceded(tuple((multispace0, tag(","), multispace0)), cp)),
+                        |r| (r, false),
+                    ),
+                )),
+            )),
+            tuple((multispace0, tag(")"))),
         ),
-        map(
-            tuple((choice, opt(alt((tag("?"), tag("*"), tag("+")))))),
-            |(v, q)| model::DeclarationContentItem::Choice(v, q),
-        ),
-    ))(input)
+        |(f, (mut r, choice))| {
+            r.insert(0, f);
+            (r, choice)
+        },
+    )(input)
 }
 
 /// (Name | choice | seq) ('?' | '*' | '+')?
@@ -531,14 +559,7 @@ fn children(input: &str) -> IResult<&str, model::DeclarationContentItem<'_>> {
 /// [\[18\] cp](https://www.w3.org/TR/2009/REC-xml-names-20091208/#NT-cp)
 fn cp(input: &str) -> IResult<&str, model::DeclarationContentItem<'_>> {
     alt((
-        map(
-            tuple((seq, opt(alt((tag("?"), tag("*"), tag("+")))))),
-            |(v, q)| model::DeclarationContentItem::Seq(v, q),
-        ),
-        map(
-            tuple((choice, opt(alt((tag("?"), tag("*"), tag("+")))))),
-            |(v, q)| model::DeclarationContentItem::Choice(v, q),
-        ),
+        children,
         map(
             tuple((qname, opt(alt((tag("?"), tag("*"), tag("+")))))),
             |(v, q)| model::DeclarationContentItem::Name(v, q),
@@ -549,6 +570,7 @@ fn cp(input: &str) -> IResult<&str, model::DeclarationContentItem<'_>> {
 /// '(' S? cp ( S? '|' S? cp )+ S? ')'
 ///
 /// [\[49\] choice](https://www.w3.org/TR/2008/REC-xml-20081126/#NT-choice)
+#[cfg(test)]
 fn choice(input: &str) -> IResult<&str, Vec<model::DeclarationContentItem<'_>>> {
     map(
         delimited(
@@ -569,6 +591,7 @@ fn choice(input: &str) -> IResult<&str, Vec<model::DeclarationContentItem<'_>>> 
 /// '(' S? cp ( S? ',' S? cp )* S? ')'
 ///
 /// [\[50\] seq](https://www.w3.org/TR/2008/REC-xml-20081126/#NT-seq)
+#[cfg(test)]
 fn seq(input: &str) -> IResult<&str, Vec<model::DeclarationContentItem<'_>>> {
     map(
         delimited(
